@@ -682,6 +682,13 @@ def run(ctx, res):
                         q["d"] = ddesc("float", [2.0])
                 run_case(ctx, res, q)
     res.count("est fitted", n_est)
+    # a single time point (seeded change C14-g): the length-scale heuristic keeps using the un-normalised distances, also when
+    # the target count of that one time point differs from its size
+    for kind in ("list", "dict", "true", "np"):
+        X, T = gen_data(rng, sizes=[20], f=2)
+        run_case(ctx, res, {"op": "est", "X": X, "T": T, "how": "column", "d": ddesc("none"), "norm": gen_norm(rng, T, kind),
+                            "ls_factor": 1.0, "cfg": "full", "fit": False})
+    res.count("est single time point", 4)
     # ---- (1c) sampled
     i = 0
     while time.time() < t_end and i < ctx.get("max_sampled", 10 ** 9):
